@@ -283,7 +283,7 @@ class ContractSet:
             if s in ('body-start', 'body-end') and cur_loop is not None:
                 txt, j = self._take_block(sect, j, src)
                 getattr(cur_loop, s.replace('-', '_')).append((txt, src)); cur_list = None; continue
-            m = re.match(r'^(?:proof|ghost)\s+(body-start|fn-end|before|after|tail)(?:\s+"((?:[^"\\]|\\.)*)")?(?:\s+#(\d+))?$', s)
+            m = re.match(r'^(?:proof|ghost)\s+(body-start|fn-end|before|after|tail|after-write)(?:\s+"((?:[^"\\]|\\.)*)")?(?:\s+#(\d+))?$', s)
             if m:
                 txt, j = self._take_block(sect, j, src)
                 anchor = (m.group(2) or '').replace('\\"', '"')
